@@ -758,8 +758,10 @@ func (s *Server) handlePAP(session *Session, data []byte) {
 		session.SetState(StateIPCPNegotiation)
 		s.startIPCPNegotiation(session)
 	} else {
-		// Terminate
+		// Terminate: a session whose (re-)authentication failed must not keep
+		// the address an earlier successful authentication gave it
 		session.SetState(StateClosed)
+		s.endSession(session)
 	}
 }
 
